@@ -260,7 +260,29 @@ def mixed_case_union(report, scen, rng, evs):
             report.count("mixed_case_unions")
 
 
+def adjacent_blocks(report, scen, rng):
+    """a store in which the requested values own *adjacent* index blocks (two kinds, two authors, two tag values and nothing
+    else), a window whose `until` cuts through every block: when the scan of one value ends, the cursor already rests on the
+    newest entry of the next value's block — which is newer than `until`"""
+    ks = rng.choice([[1, 7], [1, 2], [4, 7]])
+    au = rng.sample(gen.AUTHORS[:4], 2)
+    vals = rng.choice([["x", "y"], ["a", "b"], ["x", "xy"]])
+    steps = [0, 10, 20, 30, 40, 50]
+    evs = []
+    for i in range(rng.randint(4, 9)):
+        evs.append({"id": gen.mkid(rng), "pubkey": rng.choice(au), "created_at": gen.T0 + rng.choice(steps), "kind": rng.choice(ks),
+                    "tags": [["t", rng.choice(vals)]], "content": "", "sig": "00" * 64})
+    scen.load(evs)
+    cut = gen.T0 + rng.choice([5, 15, 25, 35, 45])
+    for f in ({"kinds": ks, "until": cut}, {"authors": au, "until": cut}, {"#t": vals, "until": cut},
+              {"authors": au, "kinds": ks, "until": cut}, {"kinds": ks, "since": gen.T0 + 5, "until": cut},
+              {"kinds": ks, "#t": vals, "until": cut}):
+        pair_union(report, scen, rng, evs, f)
+        report.count("adjacent_block_filters")
+
+
 def run_case(report, scen, rng):
+    adjacent_blocks(report, scen, rng)
     for _ in range(2):
         evs, f = multiindex_store(rng)
         scen.load(evs)
